@@ -297,7 +297,8 @@ def run(ctx):
     ctx.bounds = {'exhaustive_nodes': f'<= {exh} over literals {LITS}, And/Or arity 0..3, Not, If, Iff',
                   'sampled': f'{nsample} formulas of {exh + 1}..{exh + 2} nodes (VERIF_SEED)',
                   'random_with_sharing': f'{nrand} formulas of <= 14 nodes over variables 1..4',
-                  'next_variable': '5 (exhaustive part), 5..9 (random part)'}
+                  'next_variable': '5 (exhaustive part), 5..9 (random part)',
+                  'structured': 'And/Or of two binary connectives (If, Iff, And, Or) over literals 1..3 in every operand order'}
     ctx.outside += ['formulas beyond the node bound', 'more than 4 original variables', 'And/Or arity > 3']
     ctx.assumptions += ['z3 is sound; reference semantics of And([])=true, Or([])=false, If=implication, Iff=equivalence']
     ctx.rule = ('formulas enumerated by node count then seeded samples; non-trivial = mentions at least one variable; '
@@ -314,6 +315,26 @@ def run(ctx):
     for _ in range(nrand):
         pool = []
         items.append((random_formula(rnd, rnd.randint(6, 14), pool), rnd.randint(5, 9)))
+    # structured family: two binary connectives over the same small operands in every order (the Tseitin cache is
+    # keyed by the printed sub-formula, so operand order and connective must both matter)
+    ops = ('if', 'iff', 'and', 'or')
+    lits = (1, 2, 3)
+
+    def mk(op, a, b):
+        return (op, (a, b)) if op in ('and', 'or') else (op, a, b)
+    fam = []
+    for o1 in ops:
+        for o2 in ops:
+            for a in lits:
+                for b in lits:
+                    for c in lits:
+                        for d in lits:
+                            if (o1, a, b) < (o2, c, d) and ({a, b} == {c, d} or rnd.random() < 0.15):
+                                for top in ('and', 'or'):
+                                    fam.append(((top, (mk(o1, a, b), mk(o2, c, d))), 5))
+    fam += [((('not', f[0]), 5)) for f in fam[::7]]
+    items += fam
+    ctx.extra['formulas_structured'] = len(fam)
     ctx.extra['formulas_exhaustive'] = n_exh
     ctx.extra['formulas_total'] = len(items)
     ctx.sample({'formula': repr(items[min(700, len(items) - 1)][0]), 'conversions': list(CONVERSIONS)})
